@@ -3,7 +3,10 @@ package checks
 import (
 	"fmt"
 
+	"github.com/trustbloc/sidetree-go/pkg/api/protocol"
+	"github.com/trustbloc/sidetree-go/pkg/document"
 	"github.com/trustbloc/sidetree-go/pkg/versions/1_0/doccomposer"
+	"github.com/trustbloc/sidetree-go/pkg/versions/1_0/doctransformer/didtransformer"
 	"github.com/trustbloc/sidetree-go/pkg/versions/1_0/operationparser/patchvalidator"
 
 	"verifharness/fw"
@@ -15,9 +18,9 @@ import (
 func init() {
 	fw.Register(&fw.Check{
 		ID:          "C11",
-		Rule:        "cases: documents with 0..3 keys and services plus sibling members sharing a name prefix; (a) the complete grid of single RFC 6902 operations: 6 kinds x path x from over protected members, their elements and sub-members, prefix siblings, escaped tokens, root, '/', pointers without a leading slash or with leading garbage, trailing slashes, array indices 0 / - / out of range; (b) random sequences of 2..3 operations (e.g. copy then modify below the copy), alone and after other patches. Oracle: invariant - whenever patch validation accepts and ApplyPatches succeeds, the publicKey and service members are deeply equal before and after. distinct = distinct (kind, path class, from class, accepted?, applied?) tuples.",
+		Rule:        "cases: documents with 0..3 keys and services plus sibling members sharing a name prefix; (a) the complete grid of single RFC 6902 operations: 6 kinds x path x from over protected members, their elements and sub-members, prefix siblings, escaped tokens, root, '/', pointers without a leading slash or with leading garbage, trailing slashes, array indices 0 / - / out of range; (b) random sequences of 2..3 operations (e.g. copy then modify below the copy), alone and after other patches. Oracle: invariant - whenever patch validation accepts and ApplyPatches succeeds, the publicKey and service members are deeply equal before and after, and so are the keys/services reported by the typed document accessors (Document.PublicKeys, DIDDocument.PublicKeys/Services) and the key and service sections (verificationMethod, authentication, assertionMethod, keyAgreement, capabilityDelegation, capabilityInvocation, service) of the resolved DID document. distinct = distinct (kind, path class, from class, accepted?, applied?) tuples.",
 		Assumptions: []string{"deep JSON equality of the two protected members is the observable for 'altered'"},
-		Require:     []string{"validated", "validated-and-applied", "refused-by-validator", "grid"},
+		Require:     []string{"validated", "validated-and-applied", "refused-by-validator", "grid", "accessor-views", "resolved-views"},
 		Run:         runC11,
 	})
 }
@@ -29,11 +32,14 @@ var c11Paths = []string{
 	"/foo", "/foo/a", "/foo/publicKey", "/arr/0", "/arr/-", "/arr/99", "/new", "/alsoKnownAs", "/alsoKnownAs/0",
 	"", "/", "//publicKey", "publicKey", "service", "z/publicKey", "z/service", "x/publicKey/0", "x/service/0/id", " /publicKey", "#/publicKey", "~/service", "./publicKey",
 	"/~0publicKey", "/public~1Key", "/publicKey~0", "/service~1x", "/PublicKey", "/Service",
+	// member names that carry keys in the resolved (external) DID document
+	"/verificationMethod", "/authentication", "/keyAgreement", "/assertionMethod",
 }
 
 // paths the validator lets through: used to get long validated sequences that try to reach the protected members indirectly
 var c11FreePaths = []string{"/foo", "/foo/a", "/foo/publicKey", "/arr", "/arr/0", "/arr/2", "/arr/2/k", "/arr/-", "/new", "/new/0", "/new/id", "/alsoKnownAs", "/alsoKnownAs/0", "/alsoKnownAs/-",
-	"", "/", "/~0publicKey", "/public~1Key", "/PublicKey", "/Service", "/pub", "/publicKe", "/servic", "/x/publicKey", "/foo/service", "/id", "/@context"}
+	"", "/", "/~0publicKey", "/public~1Key", "/PublicKey", "/Service", "/pub", "/publicKe", "/servic", "/x/publicKey", "/foo/service", "/id", "/@context",
+	"/verificationMethod", "/verificationMethod/-", "/authentication", "/authentication/-", "/assertionMethod", "/keyAgreement", "/capabilityDelegation", "/capabilityInvocation"}
 
 func c11Doc(r *fw.Rand) map[string]interface{} {
 	doc := map[string]interface{}{
@@ -62,7 +68,15 @@ func c11Doc(r *fw.Rand) map[string]interface{} {
 }
 
 func c11Value(r *fw.Rand) interface{} {
-	switch r.Intn(6) {
+	switch r.Intn(8) {
+	case 6:
+		// what a key section of a resolved document looks like: embedded verification methods and references
+		k := gen.RandDocKey(r, "evil")
+		k["controller"] = "did:sidetree:EiSuffix"
+		k["id"] = "did:sidetree:EiSuffix#evil"
+		return []interface{}{k, "#evil2"}
+	case 7:
+		return []interface{}{gen.RandService(r, "evilsvc")}
 	case 0:
 		return []interface{}{}
 	case 1:
@@ -105,7 +119,18 @@ func runC11(r *fw.Runner) {
 				if kind == "move" || kind == "copy" {
 					froms = c11Paths
 				}
+				// the same grid cell on a document that has neither protected member
+				bare := c11Doc(c.Rng)
+				delete(bare, "publicKey")
+				delete(bare, "service")
 				for _, from := range froms {
+					if kind == "add" || kind == "replace" || from == "/foo" || from == "/arr" {
+						op := map[string]interface{}{"op": kind, "path": path, "value": c11Value(c.Rng)}
+						if kind == "move" || kind == "copy" {
+							op["from"] = from
+						}
+						c11Check(c, composer, bare, nil, []interface{}{op}, fmt.Sprint("bare|", kind, "|", pathClass(path), "|", pathClass(from)))
+					}
 					op := map[string]interface{}{"op": kind, "path": path}
 					if kind == "move" || kind == "copy" {
 						op["from"] = from
@@ -228,5 +253,65 @@ func c11Check(c *fw.Case, composer *doccomposer.DocumentComposer, doc map[string
 		c.Failf("protected-member-altered", map[string]interface{}{"document": doc, "patches_before": before, "operations": ops,
 			"protected_before": wantP, "protected_after": gotP, "diff": describeDiff(wantP, gotP)},
 			"a validated ietf-json-patch altered publicKey/service (%s)", describeDiff(wantP, gotP))
+		return
 	}
+	// the same question asked where a user of the document reads its keys and services: through the typed accessors
+	// and in the resolved (external) DID document
+	lstart, err := sut.ToDoc(start)
+	if err != nil {
+		c.Inconclusive("conversion")
+		return
+	}
+	c.Count("accessor-views", 1)
+	wantA, gotA := c11AccessorView(lstart), c11AccessorView(res)
+	if !oracle.JSONEqual(wantA, gotA) {
+		c.Failf("keys-or-services-altered-in-accessor-view", map[string]interface{}{"document": doc, "patches_before": before, "operations": ops,
+			"accessors_before": wantA, "accessors_after": gotA, "diff": describeDiff(wantA, gotA)},
+			"a validated ietf-json-patch altered the keys/services the document accessors report (%s)", describeDiff(wantA, gotA))
+		return
+	}
+	wantR, ok1 := c11ResolvedView(lstart)
+	gotR, ok2 := c11ResolvedView(res)
+	if !ok1 || !ok2 {
+		c.Count("resolved-view-not-available", 1)
+		return
+	}
+	c.Count("resolved-views", 1)
+	if !oracle.JSONEqual(wantR, gotR) {
+		c.Failf("keys-or-services-altered-in-resolved-document", map[string]interface{}{"document": doc, "patches_before": before, "operations": ops,
+			"resolved_before": wantR, "resolved_after": gotR, "diff": describeDiff(wantR, gotR)},
+			"a validated ietf-json-patch altered the key/service sections of the resolved DID document (%s)", describeDiff(wantR, gotR))
+	}
+}
+
+func c11AccessorView(d document.Document) interface{} {
+	dd := document.DidDocumentFromJSONLDObject(d.JSONLdObject())
+	g, err := oracle.Generic(map[string]interface{}{"Document.PublicKeys": d.PublicKeys(), "DIDDocument.PublicKeys": dd.PublicKeys(), "DIDDocument.Services": dd.Services()})
+	if err != nil {
+		return "not-serializable: " + err.Error()
+	}
+	return g
+}
+
+var c11Transformer = didtransformer.New()
+
+// c11ResolvedView is the part of the resolved DID document that carries keys and services.
+func c11ResolvedView(d document.Document) (interface{}, bool) {
+	rm := &protocol.ResolutionModel{Doc: d, RecoveryCommitment: "EiR", UpdateCommitment: "EiU"}
+	info := protocol.TransformationInfo{document.IDProperty: "did:sidetree:EiSuffix", document.PublishedProperty: true}
+	res, err := c11Transformer.TransformDocument(rm, info)
+	if err != nil || res == nil {
+		return nil, false
+	}
+	out := map[string]interface{}{}
+	for _, k := range []string{"verificationMethod", "authentication", "assertionMethod", "keyAgreement", "capabilityDelegation", "capabilityInvocation", "service", "publicKey"} {
+		if v, ok := res.Document[k]; ok {
+			out[k] = v
+		}
+	}
+	g, err := oracle.Generic(out)
+	if err != nil {
+		return nil, false
+	}
+	return g, true
 }
